@@ -158,10 +158,14 @@ func (e *hmacEngine) session(tk *verifrt.Task, sha256v bool) {
 	r.Logf("%s acquire %s keylen=%d", tk.Name, name, len(key))
 	verifrt.Yield(hsCaller)
 	var h hash.Hash
+	given := append([]byte(nil), key...) // the slice handed to the library; it must come back unmodified
 	if sha256v {
-		h = stun.VerifAcquireSHA256(key)
+		h = stun.VerifAcquireSHA256(given)
 	} else {
-		h = stun.VerifAcquireSHA1(key)
+		h = stun.VerifAcquireSHA1(given)
+	}
+	if !bytes.Equal(given, key) {
+		e.fail("caller-key-modified", "%s: Acquire%s modified the caller's %d-byte key slice (first difference at %d)", tk.Name, name, len(key), firstDiff(given, key))
 	}
 	ref := newRef()
 	rounds := 1 + r.Choose(3, "rounds")
@@ -203,6 +207,10 @@ func (e *hmacEngine) session(tk *verifrt.Task, sha256v bool) {
 			}
 		}
 	}
+	if r.Pct(20, "reset-before-put") {
+		h.Reset() // an object may go back to the pool right after a Reset
+		e.desc = append(e.desc, tk.Name+":reset")
+	}
 	verifrt.Yield(hsCaller)
 	if sha256v {
 		stun.VerifPutSHA256(h)
@@ -227,7 +235,8 @@ func (e *hmacEngine) integrity(tk *verifrt.Task) {
 	soft := strings.Repeat("x", r.Choose(120, "software-len"))
 	e.desc = append(e.desc, fmt.Sprintf("%s:integrity(key=%d,soft=%d)", tk.Name, len(key), len(soft)))
 	verifrt.Yield(hsCaller)
-	m, err := stun.Build(stun.NewTransactionIDSetter(id), stun.BindingRequest, stun.NewSoftware(soft), stun.MessageIntegrity(key))
+	given2 := append([]byte(nil), key...) // the same slice is used for AddTo and for Check
+	m, err := stun.Build(stun.NewTransactionIDSetter(id), stun.BindingRequest, stun.NewSoftware(soft), stun.MessageIntegrity(given2))
 	if err != nil {
 		e.fail("integrity-build", "%s: Build with MESSAGE-INTEGRITY failed: %v", tk.Name, err)
 		return
@@ -243,7 +252,10 @@ func (e *hmacEngine) integrity(tk *verifrt.Task) {
 		e.fail("integrity-mismatch", "%s: MESSAGE-INTEGRITY value %x differs from crypto/hmac %x (key %d bytes)", tk.Name, got, want, len(key))
 	}
 	verifrt.Yield(hsCaller)
-	if err := stun.MessageIntegrity(key).Check(m); err != nil {
+	if !bytes.Equal(given2, key) {
+		e.fail("caller-key-modified", "%s: MessageIntegrity.AddTo modified the caller's %d-byte key", tk.Name, len(key))
+	}
+	if err := stun.MessageIntegrity(given2).Check(m); err != nil {
 		e.fail("integrity-check", "%s: Check of a freshly built message failed: %v", tk.Name, err)
 	}
 }
